@@ -26,6 +26,7 @@ hold because iterm2 images outside konsole are ordinary cell content.
 
 from __future__ import annotations
 
+import functools
 import gc
 import os
 import weakref
@@ -33,7 +34,7 @@ import weakref
 from hypothesis import strategies as st
 
 from .. import gen
-from ..core import Clause, HarnessError, Violation
+from ..core import Clause, HarnessError, Violation, canon
 from ..ref import urwidscreen as RU
 
 META = {
@@ -70,6 +71,7 @@ META = {
 
 env = I = W = urwid = VT = UrwidImageError = None
 PTY = {}
+BUMPS = {}
 BEGIN, END = "\x1b[?2026h", "\x1b[?2026l"
 IDENTS = [["kitty", "0.26.5"], ["kitty", "0.20.0"], ["konsole", "22.04.0"],
           ["wezterm", "20230712-072601-f4abf8fd"], ["", ""]]
@@ -93,6 +95,20 @@ def setup():
 
     env, I, W, urwid, VT, UrwidImageError = _env, _I, _W, _urwid, _VT, _E
     _urwid.set_encoding("utf-8")
+    # diagnosis only: count the calls that change the hidden per-line "disguise" text (the originals still run)
+    orig_w = _W.UrwidImage._ti_change_disguise
+    orig_c = _W.UrwidImageCanvas._ti_change_disguise.__func__
+
+    def w_bump(self):
+        BUMPS[id(self)] = BUMPS.get(id(self), 0) + 1
+        return orig_w(self)
+
+    def c_bump(cls):
+        BUMPS["canvas"] = BUMPS.get("canvas", 0) + 1
+        return orig_c(cls)
+
+    _W.UrwidImage._ti_change_disguise = w_bump
+    _W.UrwidImageCanvas._ti_change_disguise = classmethod(c_bump)
 
 
 def pty_input():
@@ -145,86 +161,118 @@ TEXTS = st.text(alphabet="abxy ", min_size=0, max_size=7)
 VALIGN = st.sampled_from(["top", "middle", "bottom"])
 HALIGN = st.sampled_from(["left", "center", "right"])
 REL = st.sampled_from([0, 25, 50, 75, 100])
+LB_VALIGN = st.one_of(VALIGN, REL.map(lambda p: ["relative", p]))
+
+# NOTE: Hypothesis flattens nested one_of() (also through .map()), which would make the deepest alternatives
+# dominate; every choice point below therefore draws a *kind* first (sampled_from) inside a composite.
 
 
 def _sz_box():
-    return st.one_of(st.tuples(st.just("weight"), st.integers(1, 3)).map(list),
-                     st.tuples(st.just("given"), st.integers(1, 6)).map(list))
+    return st.tuples(st.sampled_from(["weight", "weight", "given"]), st.integers(1, 6)).map(
+        lambda t: [t[0], t[1] if t[0] == "given" else 1 + t[1] % 3])
 
 
 def img_leaf():
     return st.integers(0, 4).map(lambda w: {"t": "img", "w": w})
 
 
-def flow_leaf():
-    return st.one_of(img_leaf(), img_leaf(), img_leaf(),
-                     TEXTS.map(lambda s: {"t": "text", "s": s}),
-                     st.just({"t": "divider", "c": "-"}))
-
-
-def deco(child, ctx):
-    return st.one_of(
-        child.map(lambda c: {"t": "linebox", "child": c}),
-        st.tuples(child, st.integers(0, 2), st.integers(0, 2)).map(
-            lambda t: {"t": "padding", "child": t[0], "left": t[1], "right": t[2]}),
-        child.map(lambda c: {"t": "attr", "child": c}),
-    )
-
-
-def flow_spec(depth):
-    leaf = flow_leaf()
-    if depth <= 0:
-        return leaf
+@st.composite
+def _flow(draw, depth):
+    kinds = ["img", "img", "img", "text", "divider"]
+    if depth > 0:
+        kinds += ["img", "pile", "cols", "deco"]
+    k = draw(st.sampled_from(kinds))
+    if k == "img":
+        return draw(img_leaf())
+    if k == "text":
+        return {"t": "text", "s": draw(TEXTS)}
+    if k == "divider":
+        return {"t": "divider", "c": "-"}
     sub = flow_spec(depth - 1)
-    pile = st.lists(sub, min_size=1, max_size=3).map(
-        lambda cs: {"t": "pile", "k": "flow", "items": [[["pack"], c] for c in cs]})
-    cols = st.tuples(st.lists(st.tuples(_sz_box(), sub).map(list), min_size=1, max_size=3), st.integers(0, 1)).map(
-        lambda t: {"t": "cols", "k": "flow", "items": t[0], "div": t[1]})
-    return st.one_of(leaf, leaf, leaf, pile, cols, deco(sub, "flow"))
-
-
-def listbox_spec(depth):
-    return st.tuples(st.lists(flow_spec(depth), min_size=1, max_size=5), st.integers(0, 4),
-                     st.one_of(VALIGN, REL.map(lambda p: ["relative", p]))).map(
-        lambda t: {"t": "listbox", "items": [[["pack"], c] for c in t[0]], "focus": t[1], "valign": t[2]})
-
-
-def overlay_params():
-    dim = st.one_of(st.integers(1, 10), REL.map(lambda p: ["relative", max(p, 25)]))
-    return st.fixed_dictionaries({
-        "align": st.one_of(HALIGN, REL.map(lambda p: ["relative", p])),
-        "width": dim,
-        "valign": st.one_of(VALIGN, REL.map(lambda p: ["relative", p])),
-        "height": dim,
-    })
+    if k == "pile":
+        return {"t": "pile", "k": "flow", "items": [[["pack"], c] for c in draw(st.lists(sub, min_size=1, max_size=3))]}
+    if k == "cols":
+        return {"t": "cols", "k": "flow", "div": draw(st.integers(0, 1)),
+                "items": draw(st.lists(st.tuples(_sz_box(), sub).map(list), min_size=1, max_size=3))}
+    return draw(_deco(sub))
 
 
 @st.composite
-def pile_box(draw, depth):
-    sub_b, sub_f = box_spec(depth - 1), flow_spec(depth - 1)
-    item = st.one_of(st.tuples(_sz_box(), sub_b).map(list), st.tuples(_sz_box(), sub_b).map(list),
-                     sub_f.map(lambda c: [["pack"], c]))
-    items = draw(st.lists(item, min_size=0, max_size=3))
-    w = [["weight", draw(st.integers(1, 3))], draw(sub_b)]
-    items.insert(draw(st.integers(0, len(items))), w)
-    return {"t": "pile", "k": "box", "items": items}
+def _deco(draw, sub):
+    k = draw(st.sampled_from(["linebox", "padding", "attr"]))
+    node = {"t": k, "child": draw(sub)}
+    if k == "padding":
+        node.update(left=draw(st.integers(0, 2)), right=draw(st.integers(0, 2)))
+    return node
 
 
-def box_spec(depth, composite_root=False):
-    leaf = st.one_of(img_leaf(), img_leaf(), img_leaf(),
-                     st.sampled_from(["x", ".", " "]).map(lambda c: {"t": "solid", "c": c}))
-    flow = flow_spec(max(depth - 1, 0))
-    filler = st.tuples(flow, VALIGN).map(lambda t: {"t": "filler", "child": t[0], "valign": t[1]})
-    if depth <= 0:
-        return filler if composite_root else st.one_of(leaf, leaf, filler)
+@functools.lru_cache(maxsize=None)
+def flow_spec(depth):
+    return _flow(depth)
+
+
+@functools.lru_cache(maxsize=None)
+def overlay_params():
+    dim = st.tuples(st.booleans(), st.integers(1, 10), REL).map(lambda t: t[1] if t[0] else ["relative", max(t[2], 25)])
+    pos_h = st.tuples(st.booleans(), HALIGN, REL).map(lambda t: t[1] if t[0] else ["relative", t[2]])
+    pos_v = st.tuples(st.booleans(), VALIGN, REL).map(lambda t: t[1] if t[0] else ["relative", t[2]])
+    return st.fixed_dictionaries({"align": pos_h, "width": dim, "valign": pos_v, "height": dim})
+
+
+@st.composite
+def _box(draw, depth, composite_root):
+    kinds = ["filler"]
+    if not composite_root:
+        kinds += ["img", "img", "img", "solid"]
+    if depth > 0:
+        kinds += ["pile", "pile", "pile", "cols", "cols", "grid", "grid", "overlay", "overlay", "listbox", "listbox", "deco"]
+    k = draw(st.sampled_from(kinds))
+    if k == "img":
+        return draw(img_leaf())
+    if k == "solid":
+        return {"t": "solid", "c": draw(st.sampled_from(["x", ".", " "]))}
+    if k == "filler":
+        return {"t": "filler", "child": draw(flow_spec(max(depth - 1, 0))), "valign": draw(VALIGN)}
     sub = box_spec(depth - 1)
-    cols = st.tuples(st.lists(st.tuples(_sz_box(), sub).map(list), min_size=1, max_size=3), st.integers(0, 1)).map(
-        lambda t: {"t": "cols", "k": "box", "items": t[0], "div": t[1]})
-    overlay = st.tuples(overlay_params(), sub, sub).map(lambda t: dict(t[0], t="overlay", top=t[1], bottom=t[2]))
-    comp = [pile_box(depth), pile_box(depth), cols, cols, overlay, listbox_spec(depth - 1), filler, deco(sub, "box")]
-    if composite_root:
-        return st.one_of(*comp)
-    return st.one_of(leaf, *comp)
+    if k == "pile":
+        subf = flow_spec(depth - 1)
+        items = []
+        for _ in range(draw(st.integers(0, 3))):
+            if draw(st.integers(0, 2)) == 0:
+                items.append([["pack"], draw(subf)])
+            else:
+                items.append([draw(_sz_box()), draw(sub)])
+        items.insert(draw(st.integers(0, len(items))), [["weight", draw(st.integers(1, 3))], draw(sub)])
+        return {"t": "pile", "k": "box", "items": items}
+    if k == "cols":
+        return {"t": "cols", "k": "box", "div": draw(st.integers(0, 1)),
+                "items": draw(st.lists(st.tuples(_sz_box(), sub).map(list), min_size=1, max_size=3))}
+    if k == "grid":  # columns of piles / single cells (image grids): cviews that start in later shards
+        cell = st.sampled_from(["img", "img", "img", "solid", "filler"])
+        cols = []
+        for _ in range(draw(st.integers(2, 3))):
+            cells = []
+            for _ in range(draw(st.integers(1, 3))):
+                ck = draw(cell)
+                leaf = draw(img_leaf()) if ck == "img" else {"t": "solid", "c": draw(st.sampled_from(["x", "."]))}
+                if ck == "filler":
+                    leaf = {"t": "filler", "child": draw(img_leaf()), "valign": draw(VALIGN)}
+                cells.append([["weight", 1] if not cells else draw(_sz_box()), leaf])
+            col = cells[0][1] if len(cells) == 1 else {"t": "pile", "k": "box", "items": cells}
+            cols.append([draw(_sz_box()), col])
+        return {"t": "cols", "k": "box", "div": draw(st.integers(0, 1)), "items": cols}
+    if k == "overlay":
+        return dict(draw(overlay_params()), t="overlay", top=draw(sub), bottom=draw(sub))
+    if k == "listbox":
+        items = draw(st.lists(flow_spec(depth - 1), min_size=1, max_size=5))
+        return {"t": "listbox", "items": [[["pack"], c] for c in items], "focus": draw(st.integers(0, 4)),
+                "valign": draw(LB_VALIGN)}
+    return draw(_deco(sub))
+
+
+@functools.lru_cache(maxsize=None)
+def box_spec(depth, composite_root=False):
+    return _box(depth, composite_root)
 
 
 def widget_spec(styles=("kitty", "kitty", "kitty", "iterm2", "iterm2", "block")):
@@ -236,48 +284,59 @@ def widget_spec(styles=("kitty", "kitty", "kitty", "iterm2", "iterm2", "block"))
     })
 
 
-def insert_item():
-    return st.fixed_dictionaries({"sz": _sz_box(), "pack": st.booleans(), "box": box_spec(1), "flow": flow_spec(1)})
+OP_WEIGHTS = {"set": 2, "swap": 4, "insert": 3, "remove": 3, "resize": 4, "scroll": 3, "cover": 3, "move_cover": 2,
+              "uncover": 2, "retarget": 2, "noop": 1, "new_widget": 2, "drop_widget": 2, "gc": 1, "clear": 1,
+              "restart": 1, "bad_draw": 1}
 
 
-def op_strategy(any_top, explicit_clear):
-    idx = st.integers(0, 7)
-    set_layout = st.one_of(box_spec(2, composite_root=True), box_spec(3, composite_root=True))
-    if any_top:
-        bare = st.one_of(img_leaf(), st.sampled_from(["x", " "]).map(lambda c: {"t": "solid", "c": c}))
-        set_layout = st.one_of(set_layout, bare, bare)
-    ops = {
-        "set": set_layout.map(lambda l: {"op": "set", "layout": l}),
-        "swap": st.tuples(idx, idx, idx).map(lambda t: {"op": "swap", "c": t[0], "a": t[1], "b": t[2]}),
-        "insert": st.tuples(idx, idx, insert_item()).map(lambda t: {"op": "insert", "c": t[0], "at": t[1], "item": t[2]}),
-        "remove": st.tuples(idx, idx).map(lambda t: {"op": "remove", "c": t[0], "at": t[1]}),
-        "resize": st.tuples(idx, idx, _sz_box()).map(lambda t: {"op": "resize", "c": t[0], "at": t[1], "sz": t[2]}),
-        "scroll": st.tuples(idx, idx, st.one_of(VALIGN, REL.map(lambda p: ["relative", p]))).map(
-            lambda t: {"op": "scroll", "c": t[0], "focus": t[1], "valign": t[2]}),
-        "cover": st.tuples(overlay_params(), st.one_of(box_spec(0), box_spec(1))).map(
-            lambda t: {"op": "cover", "ov": t[0], "top": t[1]}),
-        "move_cover": st.tuples(idx, overlay_params()).map(lambda t: {"op": "move_cover", "c": t[0], "ov": t[1]}),
-        "uncover": st.just({"op": "uncover"}),
-        "retarget": st.tuples(idx, idx).map(lambda t: {"op": "retarget", "leaf": t[0], "w": t[1]}),
-        "noop": st.just({"op": "noop"}),
-        "new_widget": widget_spec().map(lambda s: {"op": "new_widget", "spec": s}),
-        "drop_widget": idx.map(lambda i: {"op": "drop_widget", "w": i}),
-        "gc": st.just({"op": "gc"}),
-        "clear": st.just({"op": "clear"}),
-        "restart": st.booleans().map(lambda f: {"op": "restart", "foreign": f}),
-        "bad_draw": st.just({"op": "bad_draw"}),
-    }
-    weights = {"set": 2, "swap": 4, "insert": 3, "remove": 3, "resize": 4, "scroll": 3, "cover": 3, "move_cover": 2,
-               "uncover": 2, "retarget": 2, "noop": 1, "new_widget": 2, "drop_widget": 2, "gc": 1, "clear": 1,
-               "restart": 1, "bad_draw": 1}
+@st.composite
+def _op(draw, any_top, explicit_clear, lifecycle):
+    weights = dict(OP_WEIGHTS)
     if explicit_clear:
-        ops["clear_images"] = st.lists(idx, min_size=0, max_size=3).map(lambda ws: {"op": "clear_images", "ws": ws})
-        weights["clear_images"] = 8
-        weights["noop"] = 4
-    pool = []
-    for k, n in weights.items():
-        pool += [ops[k]] * n
-    return st.one_of(*pool)
+        weights.update(clear_images=8, noop=4)
+    if lifecycle:
+        weights.update(clear=6, restart=6, stop=4, start=4, foreign=4)
+    kinds = [k for k, n in weights.items() for _ in range(n)]
+    k = draw(st.sampled_from(kinds))
+    idx = st.integers(0, 7)
+    op = {"op": k}
+    if k == "set":
+        bare = any_top and draw(st.integers(0, 2)) == 0
+        if bare:
+            op["layout"] = draw(img_leaf()) if draw(st.booleans()) else {"t": "solid", "c": draw(st.sampled_from(["x", " "]))}
+        else:
+            op["layout"] = draw(box_spec(draw(st.integers(2, 3)), True))
+    elif k == "swap":
+        op.update(c=draw(idx), a=draw(idx), b=draw(idx))
+    elif k == "insert":
+        op.update(c=draw(idx), at=draw(idx), item={"sz": draw(_sz_box()), "pack": draw(st.booleans()),
+                                                   "box": draw(box_spec(1)), "flow": draw(flow_spec(1))})
+    elif k == "remove":
+        op.update(c=draw(idx), at=draw(idx))
+    elif k == "resize":
+        op.update(c=draw(idx), at=draw(idx), sz=draw(_sz_box()))
+    elif k == "scroll":
+        op.update(c=draw(idx), focus=draw(idx), valign=draw(LB_VALIGN))
+    elif k == "cover":
+        op.update(ov=draw(overlay_params()), top=draw(box_spec(draw(st.integers(0, 1)))))
+    elif k == "move_cover":
+        op.update(c=draw(idx), ov=draw(overlay_params()))
+    elif k == "retarget":
+        op.update(leaf=draw(idx), w=draw(idx))
+    elif k == "new_widget":
+        op["spec"] = draw(widget_spec())
+    elif k == "drop_widget":
+        op["w"] = draw(idx)
+    elif k == "restart":
+        op["foreign"] = draw(st.booleans())
+    elif k == "clear_images":
+        op["ws"] = draw(st.lists(idx, min_size=0, max_size=3))
+    return op
+
+
+@functools.lru_cache(maxsize=None)
+def op_strategy(any_top, explicit_clear, lifecycle=False):
+    return _op(any_top, explicit_clear, lifecycle)
 
 
 @st.composite
@@ -287,18 +346,12 @@ def histories(draw, any_top=False, explicit_clear=False, lifecycle=False):
     cols, rows = draw(st.integers(6, 24)), draw(st.integers(4, 12))
     pool = draw(st.lists(widget_spec(), min_size=0 if any_top else 1, max_size=4))
     long = draw(st.integers(0, 3)) == 0
-    op = op_strategy(any_top, explicit_clear)
-    if lifecycle:
-        life = st.one_of(st.just({"op": "clear"}), st.booleans().map(lambda f: {"op": "restart", "foreign": f}),
-                         st.just({"op": "stop"}), st.just({"op": "start"}), st.just({"op": "foreign"}))
-        op = st.one_of(life, life, op)
+    op = op_strategy(any_top, explicit_clear, lifecycle)
     steps = draw(st.lists(st.lists(op, min_size=1, max_size=3), min_size=1, max_size=25 if long else 12))
-    first = box_spec(2, composite_root=True)
-    if any_top:
-        first = st.one_of(first, first, img_leaf())
+    first = draw(box_spec(2, True)) if not (any_top and draw(st.integers(0, 3)) == 0) else draw(img_leaf())
     return {
         "ident": ident, "force": force, "cell": draw(st.sampled_from([[1, 2], [1, 2], [2, 4], [3, 5], [9, 18]])),
-        "size": [cols, rows], "pool": pool, "layout": draw(first), "steps": steps,
+        "size": [cols, rows], "pool": pool, "layout": first, "steps": steps,
         "foreign_first": draw(st.booleans()) if lifecycle else False,
     }
 
@@ -375,6 +428,13 @@ def placement_keys(vt):
     return {(p.proto, p.z, p.digest, p.x, p.y, p.c, p.r) for p in vt.placements}
 
 
+# model anomalies that mean a control sequence of the output was cut or garbled (an image or part of the
+# screen is then not what the canvas says)
+CORRUPT = {"aborted", "cancelled", "c0_in_csi", "bad_csi_char", "bad_params", "bad_sgr", "unknown_string", "unknown_esc",
+           "kitty_bad_control", "kitty_bad_base64", "kitty_bad_zlib", "kitty_size_mismatch", "kitty_missing_size",
+           "kitty_chunk_extra_keys", "kitty_no_cell_footprint", "kitty_unknown_action", "kitty_unknown_delete",
+           "kitty_bad_int", "iterm2_bad_base64", "iterm2_no_payload", "iterm2_size_mismatch", "iterm2_non_cell_size",
+           "sync_end_without_begin"}
 FOREIGN = "\x1b[2;2H\x1b_Ga=T,f=24,s=1,v=1,c=2,r=2,z=7,C=1;AAAA\x1b\\\x1b[H"
 
 
@@ -394,6 +454,7 @@ class Lab:
         W.UrwidImage._ti_free_z_indexes.clear()
         W.UrwidImage._ti_next_z_index = 1
         W.UrwidImageCanvas._ti_disguise_state = 0
+        BUMPS.clear()
         name, version = case["ident"]
         env.apply(name=name, version=version, cell=case["cell"], cols=self.cols, rows=self.rows)
         I.KittyImage.forced_support = bool(self.force)
@@ -412,6 +473,10 @@ class Lab:
         self.flags = set()
         self.redraws = 0
         self.unknown = set()
+        self.last_canvas = None
+        self.diag = {}
+        self.dis_mark = self.gl_mark = None
+        self.top = self.top_key = None
 
     # ---------------------------------------------------------------------------------- helpers
     def new_screen(self, out):
@@ -465,28 +530,39 @@ class Lab:
 
     # ---------------------------------------------------------------------------------- screen ops
     def start(self, what="start()"):
+        was_started = self.started
         try:
             self.screen.start()
         except Exception as e:
             self.fail(f"{what} raised {type(e).__name__}: {e}", {"kind": "exception", "where": "start", "exc": type(e).__name__})
         self.started = True
-        self.pump()
+        data = self.pump()
+        if was_started:
+            if data:  # start() of a started screen is documented to do nothing
+                self.fail(f"start() of a started screen wrote {data[:40]!r}", {"kind": "start_twice"})
+            return
         self.no_placements(what)
 
     def stop(self, what="stop()"):
+        was_started = self.started
         try:
             self.screen.stop()
         except Exception as e:
             self.fail(f"{what} raised {type(e).__name__}: {e}", {"kind": "exception", "where": "stop", "exc": type(e).__name__})
         self.started = False
-        self.pump()
+        data = self.pump()
+        if not was_started:
+            if data:  # stop() of a stopped screen does nothing
+                self.fail(f"stop() of a stopped screen wrote {data[:40]!r}", {"kind": "stop_twice"})
+            return
         self.no_placements(what)
         if self.vt.sync_depth:
             self.fail("stop() leaves a synchronized update open", {"kind": "sync", "where": "stop"})
 
     def foreign(self):
         """Another program leaves an image on the terminal while our screen is not running."""
-        if not self.started:
+        if not self.started and (self.force or I.KittyImage.is_supported()):
+            # only where the library is told / knows that the terminal implements the kitty protocol
             self.vt.feed(FOREIGN)
             self.flags.add("foreign")
 
@@ -537,8 +613,9 @@ class Lab:
         elif k == "foreign":
             self.foreign()
         elif k == "clear_images":
-            ws = [self.pool[i % len(self.pool)] for i in op["ws"]] if self.pool else []
-            self.trace.append(f"clear_images:{[self.styles[i % len(self.pool)] for i in op['ws']] if self.pool else []}")
+            idxs = sorted({i % len(self.pool) for i in op["ws"]}) if self.pool else []  # distinct widgets
+            ws = [self.pool[i] for i in idxs]
+            self.trace.append(f"clear_images:{[self.styles[i] for i in idxs]}")
             try:
                 self.screen.clear_images(*ws)
             except Exception as e:
@@ -553,10 +630,18 @@ class Lab:
 
     def render(self):
         try:
-            top = build(self.layout, "box", self.pool)
+            # like urwid's MainLoop: the top widget persists while nothing is edited, so an unchanged
+            # redraw gets the cached canvas object back
+            key = (canon(self.layout), tuple(id(w) for w in self.pool))
+            if key != self.top_key:
+                self.top, self.top_key = None, None
+                self.top, self.top_key = build(self.layout, "box", self.pool), key
+            top = self.top
             canvas = top.render(self.size, focus=True)
             if canvas.rows() != self.rows or canvas.cols() != self.cols:
                 raise ValueError("canvas size")
+            for _ in canvas.content():  # urwid canvases that cannot produce their content (zero-width text, ...)
+                pass
             return canvas
         except Exception as e:  # layouts urwid / the image widget cannot render at this size: not C18's business
             self.rec.count("render_errors")
@@ -603,6 +688,13 @@ class Lab:
         vt.out_of_sync_bytes = 0
         n_ev = len(vt.events)
         self.redraws += 1
+        same_canvas = canvas is self.last_canvas
+        prev_composite = None if self.last_canvas is None else isinstance(self.last_canvas, urwid.CompositeCanvas)
+        self.last_canvas = canvas
+        if same_canvas:
+            self.flags.add("same_canvas")
+        if self.dis_mark is None:
+            self.dis_mark, self.gl_mark = self.disguises(), len(vt.graphics_log)
         try:
             self.screen.draw_screen(self.size, canvas)
         except Exception as e:
@@ -610,12 +702,26 @@ class Lab:
             self.fail(f"draw_screen() raised {type(e).__name__}: {e} (top-level canvas {type(canvas).__name__})",
                       {"kind": "exception", "where": "draw_screen", "exc": type(e).__name__, "composite": composite})
         data = self.pump()
+        # diagnosis only (goes into violation signatures): which widgets had their placements deleted in this
+        # redraw without their hidden per-line "disguise" text changing (urwid then skips their unchanged rows)
+        # (since the last completed redraw, i.e. including explicit clear_images() calls in between)
+        dels = [g["keys"] for g in vt.graphics_log[self.gl_mark:] if g["keys"].get("a") == "d"]
+        deleted_all = any(k.get("d", "a") in "aA" for k in dels)
+        deleted_z = {k.get("z") for k in dels if k.get("d") in ("z", "Z")}
+        before, after = self.dis_mark, self.disguises()
+        self.dis_mark, self.gl_mark = after, len(vt.graphics_log)
+        stuck = [k for k, v in after.items() if before.get(k) == v and (deleted_all or str(v[1]) in deleted_z)]
+        self.diag = {"same_canvas": same_canvas, "explicit_clear": "explicit_clear" in self.flags,
+                     "prev_composite": prev_composite, "disguise_unchanged": bool(stuck),
+                     "disguise_bumped": any(BUMPS.get("canvas", 0) + BUMPS.get(k, 0) > 0 for k in stuck)}
+        BUMPS.clear()
         for e in vt.events[n_ev:]:
             if e[0] in ("unknown_csi", "unknown_mode", "unknown_esc", "unknown_string"):
                 self.unknown.add(e)
-        # (1) stream complete
+        # (1) stream complete and well-formed
         if not vt.in_ground():
             self.fail(f"redraw leaves the terminal parser in state {vt.parser_state()}", {"kind": "parser", "after": "redraw"})
+        self.check_corrupt(vt, n_ev, "screen under test")
         # (2) synchronized-update bracket
         if data:
             log = vt.sync_log[n_log:]
@@ -627,6 +733,7 @@ class Lab:
                           {"kind": "sync_outside", "where": "redraw"})
         # (3) reference: same canvas, fresh screen, fresh terminal
         saved = W.UrwidImageCanvas._ti_disguise_state
+        saved_bumps = dict(BUMPS)
         out2 = Capture()
         s2 = self.new_screen(out2)
         vt2 = VT.Screen(self.cols, self.rows, profile=self.profile, strict=False)
@@ -640,6 +747,7 @@ class Lab:
                 self.fail(f"a fresh screen cannot draw the canvas: {type(e).__name__}: {e}",
                           {"kind": "exception", "where": "fresh_draw", "exc": type(e).__name__, "composite": composite})
             vt2.feed(out2.take())
+            self.check_corrupt(vt2, 0, "fresh screen")
             self.compare(vt, vt2, composite)
             keys = placement_keys(vt2)
         finally:
@@ -647,6 +755,8 @@ class Lab:
                 s2.stop()
             finally:
                 W.UrwidImageCanvas._ti_disguise_state = saved
+                BUMPS.clear()
+                BUMPS.update(saved_bumps)
         vt2.feed(out2.take())
         if vt2.placements:
             self.fail("stop() of a screen left graphics placements on the terminal", {"kind": "not_cleared", "after": "stop()"})
@@ -661,6 +771,24 @@ class Lab:
         if keys:
             self.flags.add("graphics_on_screen")
         self.prev_keys = keys
+
+    def disguises(self):
+        """id -> hidden-text state of every live graphics widget (diagnosis only)."""
+        out = {}
+        ws = list(self.pool) + [r() for r in self.kitty_refs]
+        for w in ws:
+            if w is None or isinstance(w._ti_image, I.BlockImage):
+                continue
+            tot = W.UrwidImageCanvas._ti_disguise_state + w._ti_disguise_state
+            out[id(w)] = (tot, getattr(w, "_ti_z_index", 0))
+        return out
+
+    def check_corrupt(self, vt, n_ev, who):
+        bad = [e for e in vt.events[n_ev:] if e[0] in CORRUPT]
+        if bad:
+            self.fail(f"the output of the redraw ({who}) contains cut or malformed control sequences: {bad[:4]}; "
+                      f"terminal rows: {[vt.text_row(y) for y in range(vt.rows)]}",
+                      {"kind": "corrupt_sequence", "event": bad[0][0]})
 
     def compare(self, vt, vt2, composite):
         g1, g2 = vt.graphics_map(), vt2.graphics_map()
@@ -679,8 +807,7 @@ class Lab:
                       f"{len(ghost)} cell(s) with a left-over image, {len(missing)} cell(s) with a missing image, {len(dup)} "
                       f"cell(s) with stacked duplicates; e.g. cell {c}: terminal {show(g1.get(c, ()))} vs expected "
                       f"{show(g2.get(c, ()))}\n  terminal rows: {[vt.text_row(y) for y in range(vt.rows)]}",
-                      {"kind": kind, "proto": "+".join(protos), "composite": composite,
-                       "explicit_clear": "explicit_clear" in self.flags})
+                      dict(self.diag, kind=kind, proto="+".join(protos), composite=composite))
         for y in range(vt.rows):
             r1, r2 = vt.grid[y], vt2.grid[y]
             for x in range(vt.cols):
@@ -692,8 +819,7 @@ class Lab:
                     self.fail(f"cell {(x, y)} differs from a from-scratch drawing of the same canvas: terminal {a[:2] + a[4:]} vs "
                               f"expected {b[:2] + b[4:]}\n  terminal rows: {[vt.text_row(yy) for yy in range(vt.rows)]}\n  "
                               f"expected rows: {[vt2.text_row(yy) for yy in range(vt.rows)]}",
-                              {"kind": "cell", "what": what, "composite": composite,
-                               "explicit_clear": "explicit_clear" in self.flags})
+                              dict(self.diag, kind="cell", what=what, composite=composite))
 
     # ---------------------------------------------------------------------------------- driver
     def run(self):
@@ -721,7 +847,7 @@ class Lab:
         except Exception:
             pass
         self.pool.clear()
-        self.screen = None
+        self.top = self.last_canvas = self.screen = None
         urwid.CanvasCache.clear()
         gc.collect()
 
@@ -732,15 +858,15 @@ def run_history(case, rec):
         lab.run()
     finally:
         styles = sorted(set(lab.styles))
+        ident = case["ident"][0] or "unknown"
+        rec.label(f"ident:{ident}", "forced" if case["force"] else "unforced", *sorted(lab.flags),
+                  *(f"style:{s}" for s in styles))
+        rec.count("redraws", lab.redraws)
+        for e in sorted(lab.unknown):
+            rec.label(f"model-unknown:{e[0]}:{e[1]}")
+        if "changed_while_stayed" in lab.flags:
+            rec.nontriv([lab.kinds, styles, case["ident"], case["force"]])
         lab.close()
-    ident = case["ident"][0] or "unknown"
-    rec.label(f"ident:{ident}", "forced" if case["force"] else "unforced", *sorted(lab.flags),
-              *(f"style:{s}" for s in styles))
-    rec.count("redraws", lab.redraws)
-    for e in sorted(lab.unknown):
-        rec.label(f"model-unknown:{e[0]}:{e[1]}")
-    if "changed_while_stayed" in lab.flags:
-        rec.nontriv([lab.kinds, styles, case["ident"], case["force"]])
 
 
 def check_composite(case, rec):
